@@ -60,6 +60,10 @@ class Prop(common.PropertyCheck):
         for i in range(self.budget(30, 240)):
             yield {'N': [3, 40][i % 2], 'D': 2 + i % 5, 'data': ['spread', 'modal'][(i // 2) % 2], 'cont': ['sample', 'array_float', 'sample_rfi', 'array_int', 'sample_reordered'][i % 5],
                    'chform': ['negk', 'negk_list1', 'negk_mixed'][(i // 5) % 3], 'k': 1 + (i * 7) % (2 + i % 5) if i % 3 else 2 + i % 5, 'seed': rng.randrange(1 << 30)}
+        # big-endian files (integer and floating-point): the statistics are those of the values, whatever the byte order of the container
+        for i in range(self.budget(24, 200)):
+            yield {'N': [7, 40, 3][i % 3], 'D': 2 + i % 4, 'data': ['spread', 'modal', 'ties'][(i // 2) % 3], 'cont': ['sample', 'sample_reordered', 'sample'][i % 3],
+                   'chform': ['none', 'pos', 'list', 'name', 'perm'][i % 5], 'seed': rng.randrange(1 << 30), 'byteorder': 'big', 'floatfile': i % 2 == 0}
         # relative dispersions do not depend on the units: tiny and huge magnitudes; channels without signal (0/0 is not a number)
         for i in range(self.budget(24, 300)):
             yield {'N': rng.choice([7, 40, 400]), 'D': rng.randrange(2, 5), 'data': ['spread', 'modal', 'spread'][i % 3], 'cont': 'array_float',
@@ -148,6 +152,13 @@ class Prop(common.PropertyCheck):
                 import struct as _st
                 spec.update({'datatype': 'F', 'widths': [32] * D, 'pne': {str(i + 1): '0,0' for i in range(D)},
                              'events': [[_st.unpack('<I', _st.pack('<f', float(v)))[0] for v in row] for row in ev]})
+            if case.get('floatfile') and kind != 'negative':
+                # a floating-point file holding values with a fractional part
+                import struct as _st
+                spec.update({'datatype': 'F', 'widths': [32] * D, 'pne': {str(i + 1): '0,0' for i in range(D)},
+                             'events': [[_st.unpack('<I', _st.pack('<f', float(v) + 0.37 * ((i + j) % 3)))[0] for j, v in enumerate(row)] for i, row in enumerate(ev)]})
+            if case.get('byteorder') == 'big':
+                spec['byteord'] = '4,3,2,1'       # the loaded sample keeps the file's byte order in its dtype ('>u2', '>f4')
             d, _ = samples.load(spec, name='c12.fcs')
             names = list(d.channels)
             if cont == 'sample_reordered':
@@ -210,7 +221,7 @@ class Prop(common.PropertyCheck):
             ch, cols = [names[0] if names else 0], [0]
         scalar = chf in ('pos', 'pos0', 'name', 'name_alias', 'negk')
         out = {'cols': [[bits(v) for v in plain[:, c]] for c in cols], 'res': {}, 'plain': {}, 'shape_ok': {}, 'scalar': scalar,
-               'single_precision': bool(plain.dtype == np.float32)}
+               'single_precision': bool(plain.dtype.kind == 'f' and plain.dtype.itemsize == 4)}
         if case.get('reuse') and isinstance(ch, list) and names:
             try:
                 other = d[:, ::-1] if case['seed'] % 2 else d[:, list(range(1, D)) + [0]]
